@@ -116,3 +116,12 @@ Proof.
   rewrite flat_map_app. cbn [flat_map]. unfold g at 2.
   rewrite <- app_assoc. f_equal. rewrite <- app_assoc. reflexivity.
 Qed.
+
+(* a kept result is not changed by later calls of the same function *)
+Theorem results_retained : forall rows calls more j,
+  (j < length calls)%nat ->
+  nth j (ret_hist rows (calls ++ more)) [] = nth j (ret_hist rows calls) [].
+Proof.
+  intros rows calls more j H. unfold ret_hist. rewrite map_app.
+  apply app_nth1. now rewrite map_length.
+Qed.
